@@ -410,6 +410,13 @@ def pattern_programs():
         o = NF.linear(h, T["w2"])
         return NF.mse_loss(o, T["y"]).mean()
     add("mlp_mse", [Leaf("x", (2, 2)), Leaf("w1", (2, 2)), Leaf("b1", (2,)), Leaf("w2", (1, 2)), Leaf("y", (2, 1), "any", False)], mlp)
+    # one operand read several times by ONE indexing op (embedding lookup with repeated rows / columns, list and tuple forms): every read is a path
+    def lookup(T, K):
+        e = T["a"][[1, 0, 1, 1]]                                  # (4, 3) rows of a, row 1 three times
+        f_ = T["a"][:, (2, 2, 0)]                                 # (2, 3) columns, column 2 twice
+        return F.sum(e * F.unsqueeze(T["c"], 0)) * 0.5 + F.sum(f_ * T["b"]) + F.sum(T["b"][[0, 0]][:, [1, 1, 2]])
+    for fl in [(True, True, True), (True, False, False), (False, True, True)]:
+        add("repeated_reads_by_one_index", [A(fl[0]), Bb(fl[1]), C(fl[2])], lookup, requires_grad=list(fl))
     # a stateful building block used again (in another mode) between the forward and the backward of the first use: backward of the first
     # result is still the derivative of the function that WAS computed (saved operands must not be overwritten by later forwards)
     def bn_between(first_eval):
